@@ -1,6 +1,8 @@
 package keeper
 
 import (
+	"fmt"
+
 	"math/big"
 
 	sdkmath "cosmossdk.io/math"
@@ -252,5 +254,90 @@ func VerifC13BondEdit() {
 		rt.Assert(ok && string(a) == string(other.oracle), "new bridger maps to the oracle")
 		_, old := e.k.GetOracleAddrByBridgerAddr(e.ctx, other.bridger)
 		rt.Assert(!old, "old bridger no longer maps to anything")
+	}
+}
+
+// VerifC13SlashOnlyIf: the end-block slashing pass over one oracle set, batch or bridge call (or
+// a batch and a bridge call together) of arbitrary age, with two oracles of arbitrary start
+// height, each of which has not confirmed, has confirmed, or has confirmed and rotated its bridger
+// key afterwards. An oracle goes offline / is penalised only if it was online, joined no later
+// than the object was created, the object is at least the signed window old and the oracle left
+// it unconfirmed; an oracle that confirmed is never penalised; the penalty counter moves by one
+// at most even when two objects are overdue.
+func VerifC13SlashOnlyIf() {
+	ctxH := rt.I64("ctxHeight")
+	rt.Assume(rt.And(ctxH >= 1, ctxH < 1<<40))
+	e := verifNewEnv(1)
+	e.ctx = e.ctx.WithBlockHeight(ctxH)
+	window := rt.U64("signedWindow")
+	rt.Assume(rt.And(window >= 1, window < 1<<40))
+	e.setParams(verifParamSets[0], window)
+	oracles := e.verifSymOracles(2)
+	e.k.SetLastTotalPower(e.ctx)
+	h := rt.U64("object.height")
+	rt.Assume(rt.And(h >= 1, h <= uint64(ctxH)))
+	kind := rt.Choose("kind", 4) // oracle set, batch, bridge call, batch + bridge call
+	var confirmed [2]int
+	for i := range oracles {
+		confirmed[i] = rt.Choose(fmt.Sprintf("oracle%d.confirmed", i), 3) // no, yes, yes and bridger rotated since
+	}
+	bridgerAt := func(i int) string {
+		if confirmed[i] == 2 {
+			return verifOracleIdent(5 + i).bridger.String() // the key the oracle used when it confirmed
+		}
+		return verifOracleIdent(i).bridger.String()
+	}
+	if kind == 0 {
+		e.k.StoreOracleSet(e.ctx, types.NewOracleSet(1, h, types.BridgeValidators{{Power: 4294967295, ExternalAddress: verifOracleIdent(0).external}}))
+		e.k.SetLatestOracleSetNonce(e.ctx, 1)
+		for i := range oracles {
+			if confirmed[i] != 0 {
+				id := verifOracleIdent(i)
+				e.k.SetOracleSetConfirm(e.ctx, id.oracle, &types.MsgOracleSetConfirm{Nonce: 1, BridgerAddress: bridgerAt(i), ExternalAddress: id.external, Signature: "00", ChainName: verifModule})
+			}
+		}
+	}
+	if kind == 1 || kind == 3 {
+		b := &types.OutgoingTxBatch{BatchNonce: 1, BatchTimeout: 1 << 50, TokenContract: verifTokenA, Block: h, FeeReceive: verifAddrB,
+			Transactions: []*types.OutgoingTransferTx{verifTransfer(1, verifTokenA, 10, 2)}}
+		if e.k.StoreBatch(e.ctx, b) != nil {
+			rt.Assert(false, "harness: cannot store batch")
+		}
+		for i := range oracles {
+			if confirmed[i] != 0 {
+				id := verifOracleIdent(i)
+				e.k.SetBatchConfirm(e.ctx, id.oracle, &types.MsgConfirmBatch{Nonce: 1, TokenContract: verifTokenA, BridgerAddress: bridgerAt(i), ExternalAddress: id.external, Signature: "00", ChainName: verifModule})
+			}
+		}
+	}
+	if kind == 2 || kind == 3 {
+		e.k.SetOutgoingBridgeCall(e.ctx, &types.OutgoingBridgeCall{Nonce: 1, Timeout: 1 << 50, BlockHeight: h, Sender: verifAddrB, Refund: verifAddrB, To: verifTokenA})
+		for i := range oracles {
+			if confirmed[i] != 0 {
+				id := verifOracleIdent(i)
+				e.k.SetBridgeCallConfirm(e.ctx, id.oracle, &types.MsgBridgeCallConfirm{Nonce: 1, BridgerAddress: bridgerAt(i), ExternalAddress: id.external, Signature: "00", ChainName: verifModule})
+			}
+		}
+	}
+	rt.Cover("state-built")
+	e.k.EndBlocker(e.ctx)
+	for i, before := range oracles {
+		after, found := e.k.GetOracle(e.ctx, verifOracleIdent(i).oracle)
+		if !found {
+			rt.Assert(false, "oracle record survives the end-blocker")
+			continue
+		}
+		rt.Assert(rt.Or(after.Online == before.Online, rt.And(before.Online, !after.Online)), "the end-blocker never brings an oracle online")
+		rt.Assert(rt.Or(after.SlashTimes == before.SlashTimes, after.SlashTimes == before.SlashTimes+1), "the penalty counter moves by one at most")
+		rt.Assert((after.SlashTimes == before.SlashTimes+1) == rt.And(before.Online, !after.Online), "penalty counter and offline flag move together")
+		if after.Online != before.Online {
+			rt.Cover("penalised")
+			rt.Assert(confirmed[i] == 0, "an oracle that confirmed in time is never penalised")
+			rt.Assert(uint64(before.StartHeight) <= h, "penalised only for an object created after it joined")
+			rt.Assert(uint64(ctxH)-h >= window, "penalised only for an object left unconfirmed for at least the signed window")
+		} else if confirmed[i] != 0 {
+			rt.Cover("confirmed-not-penalised")
+		}
+		rt.Assert(after.DelegateAmount.Equal(before.DelegateAmount), "the recorded stake is not touched by the slashing pass")
 	}
 }
